@@ -1,32 +1,28 @@
 /-
-  The numeric literals of the formula functions of skymodel.py (source order, per function) that the
-  hand-written model Model/Sky.lean was transcribed from.  Theorem `C10_constants_pinned` (Props/C10)
-  states that the list regenerated from the current source (Gen.Sky.formulaLiterals) is this one, so a
-  changed coefficient, exponent or threshold in the source stops the proof from checking.
+  What the formula translation (Gen/SkyFormulas.lean, tied by Proofs/C10Gen.lean) does not see: the numeric
+  default arguments of skymodel.py's functions that the hand-written model relies on (disc / dirint defaults
+  used by the Zhang-Huang split, the default air-mass model used by the revised clear sky and the luminous
+  efficacy model, the `0.1 if dhi == 0` replacement).  Theorem `C10_constants_pinned` (Props/C10) states that
+  the values regenerated from the current source (Gen/SkyTables.lean) are these.
 -/
 namespace Sky
 
-def pinnedLiterals : List (String × List Rat) := [
-  ("disc_kn", [((3 : Rat) / 5), ((64 : Rat) / 125), ((39 : Rat) / 25), ((1143 : Rat) / 500), ((1111 : Rat) / 500), ((37 : Rat) / 100), ((481 : Rat) / 500), ((-7 : Rat) / 25), ((233 : Rat) / 250), ((256 : Rat) / 125), ((-5743 : Rat) / 1000), ((2177 : Rat) / 100), ((2749 : Rat) / 100), ((289 : Rat) / 25), ((207 : Rat) / 5), ((237 : Rat) / 2), ((1321 : Rat) / 20), ((319 : Rat) / 10), ((-4701 : Rat) / 100), ((921 : Rat) / 5), ((222 : Rat) / 1), ((7381 : Rat) / 100), ((433 : Rat) / 500), ((61 : Rat) / 500), ((121 : Rat) / 10000), ((2 : Rat) / 1), ((653 : Rat) / 1000000), ((3 : Rat) / 1), ((7 : Rat) / 500000), ((4 : Rat) / 1)]),
-  ("revised_clear_sky", [((727 : Rat) / 500), ((203 : Rat) / 500), ((67 : Rat) / 250), ((21 : Rat) / 1000), ((507 : Rat) / 1000), ((41 : Rat) / 200), ((2 : Rat) / 25), ((19 : Rat) / 100), ((1219 : Rat) / 1000), ((43 : Rat) / 1000), ((151 : Rat) / 1000), ((51 : Rat) / 250), ((101 : Rat) / 500), ((213 : Rat) / 250), ((7 : Rat) / 1000), ((357 : Rat) / 1000), ((0 : Rat) / 1), ((1415 : Rat) / 1), ((1415 : Rat) / 1), ((0 : Rat) / 1), ((0 : Rat) / 1)]),
-  ("clear_sky", [((0 : Rat) / 1), ((1 : Rat) / 1), ((1 : Rat) / 1), ((17 : Rat) / 100), ((0 : Rat) / 1), ((0 : Rat) / 1), ((0 : Rat) / 1), ((0 : Rat) / 1)]),
-  ("zhang_huang", [((2799 : Rat) / 5000), ((2491 : Rat) / 5000), ((-3381 : Rat) / 5000), ((1421 : Rat) / 50000), ((-317 : Rat) / 100000), ((7 : Rat) / 500), ((-17853 : Rat) / 1000), ((843 : Rat) / 1000), ((0 : Rat) / 1), ((0 : Rat) / 1), ((10 : Rat) / 1), ((2 : Rat) / 1), ((0 : Rat) / 1), ((0 : Rat) / 1)]),
-  ("extra_radiation", [((2 : Rat) / 1), ((365 : Rat) / 1), ((1 : Rat) / 1), ((100011 : Rat) / 100000), ((34221 : Rat) / 1000000), ((4 : Rat) / 3125), ((719 : Rat) / 1000000), ((2 : Rat) / 1), ((77 : Rat) / 1000000), ((2 : Rat) / 1)]),
-  ("horizontal_infrared", [((56697 : Rat) / 1000000000000), ((5463 : Rat) / 20), ((5463 : Rat) / 20), ((787 : Rat) / 1000), ((191 : Rat) / 250), ((5463 : Rat) / 20), ((1 : Rat) / 1), ((11 : Rat) / 500), ((7 : Rat) / 2000), ((2 : Rat) / 1), ((7 : Rat) / 25000), ((3 : Rat) / 1), ((4 : Rat) / 1)]),
-  ("sky_temperature", [((56697 : Rat) / 1000000000000), ((1 : Rat) / 4), ((5463 : Rat) / 20)]),
-  ("clearness_index", [((0 : Rat) / 1)]),
-  ("kt_prime", [((1031 : Rat) / 1000), ((-7 : Rat) / 5), ((9 : Rat) / 10), ((47 : Rat) / 5), ((1 : Rat) / 10), ((0 : Rat) / 1), ((0 : Rat) / 1)]),
-  ("absolute_airmass", [((101325 : Rat) / 1)]),
-  ("disc", [((0 : Rat) / 1), ((1370 : Rat) / 1), ((1 : Rat) / 1), ((0 : Rat) / 1), ((0 : Rat) / 1), ((0 : Rat) / 1)]),
-  ("dirint", [((1 : Rat) / 1), ((1 : Rat) / 1), ((0 : Rat) / 1), ((1 : Rat) / 2), ((1 : Rat) / 1), ((-1 : Rat) / 1), ((7 : Rat) / 100), ((3 : Rat) / 40), ((-1 : Rat) / 1)]),
-  ("dirint_bins", [((-1 : Rat) / 1), ((0 : Rat) / 1), ((6 : Rat) / 25), ((0 : Rat) / 1), ((6 : Rat) / 25), ((2 : Rat) / 5), ((1 : Rat) / 1), ((2 : Rat) / 5), ((14 : Rat) / 25), ((2 : Rat) / 1), ((14 : Rat) / 25), ((7 : Rat) / 10), ((3 : Rat) / 1), ((7 : Rat) / 10), ((4 : Rat) / 5), ((4 : Rat) / 1), ((4 : Rat) / 5), ((1 : Rat) / 1), ((5 : Rat) / 1), ((-1 : Rat) / 1), ((90 : Rat) / 1), ((65 : Rat) / 1), ((0 : Rat) / 1), ((65 : Rat) / 1), ((50 : Rat) / 1), ((1 : Rat) / 1), ((50 : Rat) / 1), ((35 : Rat) / 1), ((2 : Rat) / 1), ((35 : Rat) / 1), ((20 : Rat) / 1), ((3 : Rat) / 1), ((20 : Rat) / 1), ((10 : Rat) / 1), ((4 : Rat) / 1), ((10 : Rat) / 1), ((5 : Rat) / 1), ((-1 : Rat) / 1), ((0 : Rat) / 1), ((1 : Rat) / 1), ((0 : Rat) / 1), ((1 : Rat) / 1), ((2 : Rat) / 1), ((1 : Rat) / 1), ((2 : Rat) / 1), ((3 : Rat) / 1), ((2 : Rat) / 1), ((3 : Rat) / 1), ((3 : Rat) / 1), ((-1 : Rat) / 1), ((4 : Rat) / 1), ((-1 : Rat) / 1), ((0 : Rat) / 1), ((3 : Rat) / 200), ((0 : Rat) / 1), ((3 : Rat) / 200), ((7 : Rat) / 200), ((1 : Rat) / 1), ((7 : Rat) / 200), ((7 : Rat) / 100), ((2 : Rat) / 1), ((7 : Rat) / 100), ((3 : Rat) / 20), ((3 : Rat) / 1), ((3 : Rat) / 20), ((3 : Rat) / 10), ((4 : Rat) / 1), ((3 : Rat) / 10), ((1 : Rat) / 1), ((5 : Rat) / 1), ((-1 : Rat) / 1), ((6 : Rat) / 1)]),
-  ("illuminance", [((0 : Rat) / 1), ((0 : Rat) / 1), ((0 : Rat) / 1), ((0 : Rat) / 1), ((0 : Rat) / 1), ((90 : Rat) / 1), ((0 : Rat) / 1), ((1 : Rat) / 10), ((3 : Rat) / 1), ((1 : Rat) / 1), ((3 : Rat) / 1), ((1360 : Rat) / 1), ((2 : Rat) / 25), ((3 : Rat) / 40), ((1 : Rat) / 1), ((213 : Rat) / 200), ((0 : Rat) / 1), ((213 : Rat) / 200), ((123 : Rat) / 100), ((1 : Rat) / 1), ((123 : Rat) / 100), ((3 : Rat) / 2), ((2 : Rat) / 1), ((3 : Rat) / 2), ((39 : Rat) / 20), ((3 : Rat) / 1), ((39 : Rat) / 20), ((14 : Rat) / 5), ((4 : Rat) / 1), ((14 : Rat) / 5), ((9 : Rat) / 2), ((5 : Rat) / 1), ((9 : Rat) / 2), ((31 : Rat) / 5), ((6 : Rat) / 1), ((31 : Rat) / 5), ((7 : Rat) / 1), ((0 : Rat) / 1), ((573 : Rat) / 100), ((5 : Rat) / 1), ((-3 : Rat) / 1)]),
-  ("airmass:kastenyoung1989", [((1 : Rat) / 1), ((12643 : Rat) / 25000), ((121599 : Rat) / 20000), ((-4091 : Rat) / 2500)]),
-  ("airmass:kasten1966", [((1 : Rat) / 1), ((3 : Rat) / 20), ((777 : Rat) / 200), ((-1253 : Rat) / 1000)]),
-  ("airmass:simple", [((1 : Rat) / 1)]),
-  ("airmass:pickering2002", [((1 : Rat) / 1), ((244 : Rat) / 1), ((165 : Rat) / 1), ((47 : Rat) / 1), ((11 : Rat) / 10)]),
-  ("airmass:youngirvine1967", [((1 : Rat) / 1), ((1 : Rat) / 1), ((3 : Rat) / 2500), ((1 : Rat) / 1)]),
-  ("airmass:young1994", [((15663 : Rat) / 15625), ((2 : Rat) / 1), ((74193 : Rat) / 500000), ((96467 : Rat) / 10000000), ((3 : Rat) / 1), ((18733 : Rat) / 125000), ((2 : Rat) / 1), ((102963 : Rat) / 10000000), ((151989 : Rat) / 500000000)]),
-  ("airmass:gueymard1993", [((1 : Rat) / 1), ((176759 : Rat) / 100000000), ((90 : Rat) / 1), ((1887503 : Rat) / 20000), ((90 : Rat) / 1), ((-121563 : Rat) / 100000)])]
+def pinnedAirmassDefaultModel : String := "kastenyoung1989"
+
+def pinnedAirmassModelNames : List String :=
+  ["kastenyoung1989", "kasten1966", "simple", "pickering2002", "youngirvine1967", "young1994", "gueymard1993"]
+
+def pinnedDefaults : List (String × List Rat) := [
+  ("ashrae_clear_sky", [((1 : Rat) / 1)]),
+  ("zhang_huang_solar", [((1355 : Rat) / 1)]),
+  ("calc_sky_temperature", [((1 : Rat) / 1)]),
+  ("dirint", [((13 : Rat) / 200), ((3 : Rat) / 1)]),
+  ("disc", [((101325 : Rat) / 1), ((13 : Rat) / 200), ((3 : Rat) / 1), ((12 : Rat) / 1)]),
+  ("_disc_kn", [((12 : Rat) / 1)]),
+  ("get_extra_radiation", [((13661 : Rat) / 10)]),
+  ("clearness_index", [((13 : Rat) / 200), ((2 : Rat) / 1)]),
+  ("clearness_index_zenith_independent", [((2 : Rat) / 1)]),
+  ("get_absolute_airmass", [((101325 : Rat) / 1)]),
+  ("illuminance:dhi_if_zero", [((0 : Rat) / 1), ((1 : Rat) / 10)])]
 
 end Sky
